@@ -49,7 +49,7 @@ package process
 //@    (is(f, ReceiveForm) ==> kid(ReceiveForm(f).continuation_e, fsize(f))) &&
 //@    (is(f, BranchForm) ==> kid(BranchForm(f).continuation_e, fsize(f))) &&
 //@    (is(f, CaseForm) ==> branchesOK(CaseForm(f).branches, fsize(f))) &&
-//@    (is(f, NewForm) ==> kid(NewForm(f).body, fsize(f)) && kid(NewForm(f).continuation_e, fsize(f))) &&
+//@    (is(f, NewForm) ==> kid(NewForm(f).body, fsize(f)) && kid(NewForm(f).continuation_e, fsize(f)) && !NewForm(f).derivedFromMacro) &&
 //@    (is(f, SplitForm) ==> kid(SplitForm(f).continuation_e, fsize(f))) &&
 //@    (is(f, WaitForm) ==> kid(WaitForm(f).continuation_e, fsize(f))) &&
 //@    (is(f, ShiftForm) ==> kid(ShiftForm(f).continuation_e, fsize(f))) &&
@@ -500,6 +500,51 @@ package process
 //@ macro argsFrame() bool = forall x *Name :: isElem(x) && !callArg(x) ==> deref(x) == old(deref(x))
 
 //@ contract interface Form.typecheckForm(self, gamma, sh, providerType, env, sigma, globalEnv)
-//@   requires[C09] readyEnv(dom(env), vals(env)) && gammaReady(gamma, dom(env), vals(env)) && ready(providerType, dom(env), vals(env)) && sigmaReady(sigma, dom(env), vals(env))
+//@   requires[C09] readyEnv(dom(env), vals(env))
+//@   requires[C09] gammaReady(gamma, dom(env), vals(env))
+//@   requires[C09] ready(providerType, dom(env), vals(env))
+//@   requires[C09] sigmaReady(sigma, dom(env), vals(env))
 //@   ensures[C09] C09.tcModesKept: modesKept()
 //@   ensures[C09] C09.tcArgsFrame: argsFrame()
+
+//@ macro tcReady(g NamesTypesCtx, pt types.SessionType, env types.LabelledTypesEnv, s FunctionTypesEnv) bool = readyEnv(dom(env), vals(env)) && gammaReady(g, dom(env), vals(env)) && ready(pt, dom(env), vals(env)) && sigmaReady(s, dom(env), vals(env))
+//@ contract (*CaseForm).typecheckForm
+//@   loop[C09] 1 invariant modesKept() && argsFrame() && labelsChecked != nil
+//@   loop[C09] 1 invariant tcReady(gammaNameTypesCtx, providerType, labelledTypesEnv, sigma) && ready(types.SessionType(providerBranchCaseType), dom(labelledTypesEnv), vals(labelledTypesEnv))
+//@   loop[C09] 2 invariant modesKept() && argsFrame() && labelsChecked != nil
+//@   loop[C09] 2 invariant tcReady(gammaNameTypesCtx, providerType, labelledTypesEnv, sigma) && ready(types.SessionType(clientSelectLabelType), dom(labelledTypesEnv), vals(labelledTypesEnv))
+//@ contract (*CallForm).typecheckForm
+//@   loop[C09] 1 invariant argsFrame() && gammaReady(gammaNameTypesCtx, dom(labelledTypesEnv), vals(labelledTypesEnv))
+//@   loop[C09] 1 decreases len(p.parameters) - i
+//@   loop[C09] 2 invariant argsFrame() && gammaReady(gammaNameTypesCtx, dom(labelledTypesEnv), vals(labelledTypesEnv))
+//@   loop[C09] 2 decreases len(p.parameters) - i
+
+// ---- C09: the cut rule
+// the type annotation of a spawned channel is a well-shaped tree (or absent) before and after checking
+//@ invariant[C09] forall x *NewForm :: x.new_name_c.Type == nil || shapeOK(x.new_name_c.Type)
+//@ contract checkNameType
+//@   requires[C09] envTypesOK(labelledTypesEnv)
+//@   ensures[C09] C09.nameTypeReady: result == nil ==> ready(name.Type, dom(labelledTypesEnv), vals(labelledTypesEnv))
+//@ macro ctxNamesTyped(g NamesTypesCtx) bool = forall x string :: has(g, x) ==> g[x].Name.Type == g[x].Type
+//@ contract produceNameTypesCtx
+//@   ensures[C09] C09.produceTyped: ctxNamesTyped(result)
+//@   loop[C09] 1 invariant ctxNamesTyped(namesTypesCtx)
+//@ contract splitGammaCtx
+//@   requires[C09] gammaNameTypesCtx != nil && readyEnv(dom(labelledTypesEnv), vals(labelledTypesEnv)) && gammaReady(gammaNameTypesCtx, dom(labelledTypesEnv), vals(labelledTypesEnv))
+//@   ensures[C09] C09.splitReady: result2 == nil ==> gammaReady(result0, dom(labelledTypesEnv), vals(labelledTypesEnv)) && ctxNamesTyped(result0) && gammaReady(gammaNameTypesCtx, dom(labelledTypesEnv), vals(labelledTypesEnv))
+//@   ensures[C09] C09.splitErr: result2 != nil ==> result0 == nil && result1 == nil
+//@   loop[C09] 1 invariant gammaReady(gammaNameTypesCtx, dom(labelledTypesEnv), vals(labelledTypesEnv))
+//@   loop[C09] 1 invariant forall k int :: 0 <= k && k < len(namesFound) ==> ready(namesFound[k].Type, dom(labelledTypesEnv), vals(labelledTypesEnv))
+//@ contract (NamesTypesCtx).getNames
+//@   ensures[C09] C09.getNamesLen: len(result) >= 0
+//@ contract (*NewForm).typecheckForm
+//@   callsite[C09] C09.cutCallTyped process.declationOfIndependence#1: ctxNamesTyped(gammaLeftNameTypesCtx)
+
+// typecheckForm (*NewForm) re-reads the annotation of its own name after checking the spawned term: checking a
+// term only writes annotations inside that term (tree numbering flo/fhi as for substitution)
+//@ contract interface Form.typecheckForm(self, gamma, sh, providerType, env, sigma, globalEnv)
+//@   requires[C09] formTree(self)
+//@   ensures[C09] C09.tcNewKept: keptNewForm(self)
+//@ contract (*CaseForm).typecheckForm
+//@   loop[C09] 1 invariant keptNewForm(Form(p))
+//@   loop[C09] 2 invariant keptNewForm(Form(p))
